@@ -6,6 +6,7 @@ specs/ghist/RepoOrder.tla  all dependency graphs between repositories, topologic
 """
 import itertools
 import json
+import os
 
 import ghmock
 from vcheck import Machinery, pmap
@@ -83,7 +84,16 @@ def observe(case):
     lib_tags.update({_tag(c, True, vfile, zero): c for c in range(1, ck + 1) if case['ctagged'][c - 1] == 2})
     if saved:
         lib_tags = {}
-    lib = ghmock.Repo('lib', lib_commits, lib_tags, {'master': ck}, time_step=600)
+    # days: the component has a second, older branch (head = a commit that master contains) and commits that are two days
+    # apart; every parent commit is made ten minutes (times its number) after the component commit it pins - all inside the
+    # cut-off windows (30 days for branches, one day before the oldest report-related component build for parents)
+    days = bool(case.get('days')) and ck >= 2
+    lib_heads, lib_times, app_times = {'master': ck}, None, None
+    if days:
+        lib_heads['release/0.5'] = (ck + 1) // 2 if case['linear'] else 1
+        lib_times = {c: c * 2 * 86400 for c in range(1, ck + 1)}
+        app_times = {c: case['pin'][c - 1] * 2 * 86400 + 600 * c for c in range(1, case['h']['n'] + 1)}
+    lib = ghmock.Repo('lib', lib_commits, lib_tags, lib_heads, time_step=600, times=lib_times)
     h = case['h']
     # second component: the same history under another name, pinned by every parent commit at the highest pin that
     # occurs for the first component (a pin that never moves)
@@ -105,12 +115,12 @@ def observe(case):
                 # the same parent commit was also built for a later release line, with a SMALLER build counter: its build
                 # number stays the smallest one, 1.0.<n>
                 app_tags['build_%d_release_1_1_success' % c] = c
-    app = ghmock.Repo('app', app_commits, app_tags, dict(h['head']), time_step=600)
+    app = ghmock.Repo('app', app_commits, app_tags, dict(h['head']), time_step=600, times=app_times)
     order = case.get('supply', 0)
     repos = [('lib', e['LibS' if saved else ('LibV' if vfile else 'Lib')]('lib', lib, 'origin')),
              ('app', e['App2' if two else 'App']('app', app, 'origin'))]
     if two:
-        lib2 = ghmock.Repo('lib2', lib_commits, lib_tags, {'master': ck}, time_step=600)
+        lib2 = ghmock.Repo('lib2', lib_commits, lib_tags, lib_heads, time_step=600, times=lib_times)
         repos.insert(1 if order else 0, ('lib2', e['Lib']('lib2', lib2, 'origin')))
     if order:
         repos.reverse()
@@ -155,11 +165,16 @@ def observe(case):
         want = {str(c): v for c, v in zip(ctagged, case['incl'])} if ctagged != list(range(1, len(ctagged) + 1)) else want
     want = {int(k): set((x[0], x[1]) for x in v) for k, v in want.items()}
     rb = set(case['rb'])
-    if case['linear'] and set(real_incl) != rb:
+    if case['linear'] and not days and set(real_incl) != rb:     # with a second component branch more builds are report-related
         return 'report-related component builds %s, expected %s' % (sorted(real_incl), sorted(rb))
     if not set(real_incl) <= set(want):
         return 'report-related component builds %s are not all tagged commits %s' % (sorted(real_incl), sorted(want))
     for cb in sorted(real_incl):
+        if days and cb <= lib_heads['release/0.5'] and any(p > lib_heads['release/0.5'] for p in case['pin']):
+            # a build of the component's older branch while the parent pins builds of the component's master: whether a
+            # master build "contains" the builds of the older branch it was forked from is not fixed by the property
+            # (the code keeps the branches apart) - not judged
+            continue
         if real_incl[cb] != want[cb]:
             return ('component build %d (tag %s) is recorded as included at %s, the first parent builds that ship it are %s'
                     % (cb, _tag(cb, False, vfile, zero), sorted(real_incl[cb]), sorted(want[cb])))
@@ -276,6 +291,7 @@ def run(ctx):
     ctx.extra['history_pairs_simulated_5_component_commits'] = len(sim5)
     for i, c in enumerate(cases):
         c['supply'] = i % 2
+        c['days'] = (i // 64) % 2 if 'VERIF_C07_DAYS' not in os.environ else 1
         c['two'] = (i // 8) % 2           # the parent pins a second component as well
         c['twolines'] = (i // 32) % 2     # tagged parent commits carry a second tag of release line 1.1 with a smaller counter
         c['zero'] = (i // 16) % 2         # the component's release line is 0.9 instead of 1.0 (tag-only components)
@@ -287,6 +303,10 @@ def run(ctx):
         no_plain_merge = all(c['ctagged'][k] or len(c['cparents'][k]) <= 1 or k + 1 != c['ck'] for k in range(c['ck']))
         if ((i // 4) % 2 or c.get('prefer_saved')) and not c.get('sideways') and roots_built and no_plain_merge and all(x <= 1 for x in c['ctagged']) and not any(c['pin2']):
             c['vfile'] = 2
+            # builds detected from the saved number: the head of a second branch carries the number of the build it points
+            # to or follows, so one number names a "build" in each branch - which of them a pin means is not fixed by the
+            # property; the two-branch / two-days variant is used with tagged builds only
+            c['days'] = 0
     res = pmap(_job, cases, chunk=100)
     for c, prob in zip(cases, res):
         if prob:
